@@ -75,6 +75,11 @@ CHECKS = {
    "Every generated description (all type constructors to depth 4, empty and non-empty lists, comments at interface / member / direct field / parameter / variant level) is rendered by zlink, parsed back and compared through the public accessors with the generating tree, re-rendered (must reproduce the text), and sent as an InterfaceDescription reply that the client side receives and parses to the same tree; the library's org.varlink.service description is included. Cases matching the known finding enum-variant-comment-render are attributed to it only if they pass once the variant comments are removed.",
    "Trusted: the harness's own tree / conversion through public accessors (shared with C13). Legal comment text = no line break, no leading blank, no carriage return. Comments inside inline types are not generated (not listed by the statement).",
    "§3 C14"),
+ "C16": ("exploration", "corpus16",
+   "generated-program testing: a seeded generator emits modules of structs / unit enums / error enums with the introspection derives (every entry of the Rust->Varlink mapping table, wrappers, collections, nested custom and inline types, lifetimes, raw-identifier fields, doc comments in both forms) plus the expected description; the corpus is compiled against /repo (diagnostics mapped to the generated module) and a runner dumps TYPE / CUSTOM_TYPE / VARIANTS through the public accessors and the render -> parse round trip of an interface assembled from them; oracle = expectation computed from the declaration by the harness's own mapping table; known-finding lanes with witness",
+   "60 (thorough 500) generated modules, 5-6 derived items each: the derived descriptions must list exactly the declared fields / variants in order under their Rust names with the expected Varlink types and the doc texts as comments; the interface assembled from a module's descriptions must render to text that parses back equal (library == and deep compare) and re-renders to an equal description. Modules with a directly nested Option or a documented variant in a multi-variant unit enum are attributed to the two known findings for the round-trip part only.",
+   "Trusted: the harness's own Rust-type -> Varlink-type table (written from the statement). External-crate impls (uuid, chrono, url, ...) are not in the cargo cache and not covered. Comments inside inline types are ignored in the round trip (not listed by the property).",
+   "§3 C16"),
  "C06": ("exploration", "vcheck",
    "model-based property testing of chains (proptest, shrinking): generated flag sequences + conforming server scripts + trailing frames + chunkings, stream polled by hand; exhaustive enumeration of all flag sequences up to length 4 x 3 script families x 3 trailing counts x 6 chunkings; oracle = owed-reply model + reference decode + transport poll counter",
    "Chains of 1..6 calls over {plain, oneway, more} are sent through Connection::chain_call/append/send against a scripted transport that then stays silent; the single transport write must equal the calls' reference encodings, the stream must yield exactly the owed replies (as the reference classifies each frame) and then None without polling the transport, and a later receive_reply must still find every trailing frame.",
@@ -139,6 +144,9 @@ def main():
             {"name": "corpus12", "path": "harness/corp12",
              "serves_properties": ["C12"],
              "kind_free_text": "generated program corpus: vcheck's C12 generator writes proxy traits + a reporting runner into harness/corp12/gen-out, builds the crate with cargo (release profile, opt-level 0, shared target dir) against /repo and runs it; judging happens in vcheck"},
+            {"name": "corpus16", "path": "harness/corp16",
+             "serves_properties": ["C16"],
+             "kind_free_text": "generated program corpus of introspection derives: generator in vcheck (c16.rs), runner crate harness/corp16 built with cargo against /repo, judged in vcheck"},
             {"name": "vcheck", "path": "harness/vcheck",
              "serves_properties": sorted(k for k, v in CHECKS.items() if v[1] == "vcheck"),
              "kind_free_text": "Rust binary: proptest 1.11 strategies run through TestRunner (fixed seeds, shrinking, no persistence) in seed shards, plus exhaustive enumerators for bounded sub-domains; deterministic simulated transport / listener / executor (vcommon)"},
